@@ -40,7 +40,11 @@ fn rt<T: Serialize + DeserializeOwned + Debug>(ctx: &mut Ctx, ty: &str, x: &T, m
 
 fn gen_cose_key(rng: &mut impl Rng) -> CoseKey {
     let len = |rng: &mut dyn rand::RngCore| -> usize { [0usize, 1, 31, 32, 33, 48, 66][rng.gen_range(0..7)] };
-    let bytes = |rng: &mut dyn rand::RngCore, n: usize| -> Vec<u8> { (0..n).map(|_| rng.gen()).collect() };
+    // boundary coordinates: leading zero bytes (unsigned big-endian integers must keep their length), all zero, all 0xff
+    let bytes = |rng: &mut dyn rand::RngCore, n: usize| -> Vec<u8> {
+        let mut v: Vec<u8> = (0..n).map(|_| rng.gen()).collect();
+        match rng.gen_range(0..8u8) { 0 => { if n > 0 { v[0] = 0; } } 1 => { for b in v.iter_mut().take(3) { *b = 0; } } 2 => { for b in v.iter_mut() { *b = 0; } } 3 => { for b in v.iter_mut() { *b = 0xff; } } _ => {} }
+        v };
     if rng.gen_bool(0.65) {
         let crv = [EC2Curve::P256, EC2Curve::P384, EC2Curve::P521, EC2Curve::P256K][rng.gen_range(0..4)].clone();
         let n = len(rng); let x = bytes(rng, n);
@@ -155,7 +159,7 @@ pub fn run(ctx: &mut Ctx) {
         let drm_v = match k % 6 {
             0 => Value::Array(vec![iv(2), iv(1), Value::Map(vec![(iv(0), Value::Bool(false)), (iv(1), Value::Bool(true)), (iv(11), Value::Bytes((0..16).map(|_| rng.gen()).collect()))])]),
             1 => Value::Array(vec![iv(2), iv(1), Value::Map(vec![(iv(0), Value::Bool(true)), (iv(1), Value::Bool(true)), (iv(10), Value::Bytes(vec![5; 16])), (iv(11), Value::Bytes(vec![6; 16])), (iv(20), Value::Bytes(vec![1, 2, 3, 4, 5, 6]))])]),
-            2 => Value::Array(vec![iv(1), iv(1), Value::Map(vec![(iv(0), iv(rng.gen_range(255..70000))), (iv(1), iv(rng.gen_range(256..5_000_000)))])]),
+            2 => Value::Array(vec![iv(1), iv(1), Value::Map(vec![(iv(0), iv(rng.gen_range(255..=65535))), (iv(1), iv(rng.gen_range(256..5_000_000)))])]),
             3 => Value::Array(vec![iv(3), iv(1), Value::Map(vec![(iv(0), Value::Text(gen_text(&mut rng, 10))), (iv(3), Value::Bytes(vec![1]))])]),
             4 => Value::Array(vec![iv(3), iv(1), Value::Map(vec![(iv(1), iv(rng.gen_range(0..1000))), (iv(2), iv(rng.gen_range(0..100000)))])]),
             _ => Value::Array(vec![iv(3), iv(1), Value::Map(vec![])]),
